@@ -26,6 +26,9 @@ _BARE = ['mutex', 'timed_mutex', 'shared_mutex', 'shared_timed_mutex', 'unique_l
          'basic_string', 'map', 'less', 'char_traits', 'default_delete', 'ratio',
          'condition_variable', '__shared_ptr', '__atomic_base', 'allocator_traits']
 
+# names of the driver's namespace vf that clang prints unqualified inside template arguments
+VF_BARE = ['payload', 'fn_void', 'fn_val', 'cfn_void', 'cfn_val', 'pred', 'obj', 'key', 'callback']
+
 # canonical spelling -> short alias (applied after qualification)
 ALIASES = [
     (r'std::chrono::duration<long, std::ratio<1, 1000>>', 'vf::msec'),
@@ -51,6 +54,8 @@ def qualify(q):
     q = q.replace('> >', '>>').replace('> >', '>>')
     for b in _BARE:
         q = re.sub(r'(?<![\w:])' + b + r'(?![\w])', 'std::' + b, q)
+    for b in VF_BARE:
+        q = re.sub(r'(?<![\w:])' + b + r'(?![\w])', 'vf::' + b, q)
     q = re.sub(r'(?<![\w:])chrono::', 'std::chrono::', q)
     for b in ('steady_clock', 'system_clock', 'duration', 'time_point'):
         q = re.sub(r'(?<![\w:])' + b + r'(?![\w])', 'std::chrono::' + b, q)
